@@ -147,12 +147,13 @@ def run_property(pid, tier):
             knownhits.append(o)
         else:
             viol.append(o)
-    os.makedirs(os.path.join(VERIF, "evidence", "replay"), exist_ok=True)
+    ebase = os.environ.get("VERIF_EVIDENCE_DIR")  # tools redirect evidence of scratch-copy runs
+    os.makedirs(os.path.join(ebase or os.path.join(VERIF, "evidence"), "replay"), exist_ok=True)
     for o in knownhits:
         print("KNOWN-FINDING: property=%s %s -- %s" % (pid, o.key, known[(pid, o.key)]))
     for i, o in enumerate(viol):
         rp = os.path.join("evidence", "replay", "%s-%d.json" % (pid, i))
-        with open(os.path.join(VERIF, rp), "w") as fh:
+        with open(os.path.join(ebase, "replay", os.path.basename(rp)) if ebase else os.path.join(VERIF, rp), "w") as fh:
             json.dump({"property": pid, "obligation": o.as_json(), "rule_text": ctx.rules.get(o.rule, ""), "tree": facts.tree_hash(), "repo": facts.REPO}, fh, indent=1)
         print("VIOLATION property=%s replay=%s" % (pid, rp))
         print("  rule %s: %s" % (o.rule, ctx.rules.get(o.rule, "")))
